@@ -740,6 +740,11 @@ class Interp:
                 if a is not _NOSPEC and b is not _NOSPEC:
                     if isinstance(a, (bool, SBool)) and isinstance(b, (bool, SBool)):
                         return wrap_bool(z3.If(t, _zb(a), _zb(b)))
+                    if (isinstance(a, int) and isinstance(b, int) and not isinstance(a, bool) and not isinstance(b, bool)
+                            and a >= 0 and b >= 0 and getattr(self, "prefer_bv", False)):
+                        w = max(a.bit_length(), b.bit_length(), 1)
+                        from .ops import sbv_norm
+                        return sbv_norm(z3.If(t, z3.BitVecVal(a, w), z3.BitVecVal(b, w)), w)
                     if is_intlike(a) and is_intlike(b) and not isinstance(a, SBV) and not isinstance(b, SBV):
                         return wrap_int(z3.If(t, zi(a), zi(b)))
             except NeedFork:
